@@ -227,7 +227,7 @@ var standingAssumptions = []string{
 	"integers are mathematical with explicit range/overflow obligations on int/int64 arithmetic, not bit-vectors; narrower types wrap by mod",
 	"A-len: slice, string and map lengths are at most 2^56",
 	"memory model: typed regions (struct field / element type / cell type); no aliasing between pointers to different types; no unsafe",
-	"pointers held in *T (T not a struct) point to their own cells, never into struct fields",
+	"a pointer *T (T not a struct) points to its own cell or to a struct field whose address the program takes (found by a whole-program scan; such a field is stored at paddr(object, k) in the cell region of T); addresses handed only to functions outside the repository or to trusted contracts are assumed not to be retained by them",
 	"memory exhaustion, stack depth and timing are not modelled",
 	"package initialisers establish the stated facts about package-level variables (sentinel errors, raw JSON constants)",
 }
